@@ -83,6 +83,31 @@ Definition wf_extra (d : typedef) (v : value) : bool :=
   | _ => false
   end.
 
+(* b is the Go zero value of type ty (to depth n; types outside the universe are not inspected) *)
+Fixpoint zero_like (n : nat) (ty : gotype) (b : value) : bool :=
+  match n with
+  | O => false
+  | S n' =>
+      match rk sch ty, b with
+      | RInt, VInt z => z =? 0
+      | RFloat, VFloat q => q =? 0
+      | RBool, VBool x => negb x
+      | RString, VStr [] => true
+      | RTime, VTime t => t =? zero_time
+      | RPtr _, VPtr None => true
+      | RSlice _, VList [] => true
+      | RStruct d, VStruct bs =>
+          (fix go (fs : list field) (bs : list value) : bool :=
+             match fs, bs with
+             | [], [] => true
+             | f :: fs', x :: bs' => zero_like n' (f_type f) x && go fs' bs'
+             | _, _ => false
+             end) (struct_fields d) bs
+      | RBad, _ => true
+      | _, _ => false
+      end
+  end.
+
 Fixpoint wf (n : nat) (ty : gotype) (v : value) : bool :=
   match n with
   | O => false
@@ -98,7 +123,7 @@ Fixpoint wf (n : nat) (ty : gotype) (v : value) : bool :=
              match fs, vs with
              | [], [] => true
              | f :: fs', x :: vs' =>
-                 (if x_skip (f_xml f) then value_eqb x (zero sch n' (f_type f)) else wf n' (f_type f) x)
+                 (if x_skip (f_xml f) then zero_like n' (f_type f) x else wf n' (f_type f) x)
                  && go fs' vs'
              | _, _ => false
              end) (struct_fields d) vs
